@@ -579,7 +579,7 @@ Definition prop_owner (name : bytes) : list string :=
   else if bytes_eqb name (bs "total") then ["C03"%string]
   else if bytes_eqb name (bs "pure") || bytes_eqb name (bs "shared-race-free") || bytes_eqb name (bs "shared-same-results") then ["C13"%string]
   else if bytes_eqb name (bs "http-faithful") then ["C17"%string]
-  else if bytes_eqb name (bs "amount-as-read") then ["C19"%string]
+  else if bytes_eqb name (bs "amount-as-read") || bytes_eqb name (bs "amount-routes") then ["C19"%string]
   else if bytes_eqb name (bs "http-no-truncation") then ["C08"; "C18"]%string   (* a 201 for an invalid upload is not failing closed *)
   else if bytes_eqb name (bs "http-contents-own-params") || bytes_eqb name (bs "http-fail-closed") then ["C18"%string]
   else if bytes_eqb name (bs "http-options-agree") || bytes_eqb name (bs "options-routes-agree") then ["C12"%string]
